@@ -154,7 +154,14 @@ fn c13_inputs() {
         ("property access on a party (no target type)", "party P; tx t(q: Int) { output { to: P, amount: Ada(P.q), } }"),
         ("nested constructor naming a case of the enclosing type", "party P; type V { A, } type W { C { f: V, }, } tx t() { output { to: P, amount: Ada(1), datum: W::C { f: V::C {}, }, } }"),
         ("undefined identifier", "party P; tx t() { output { to: P, amount: Ada(zzz), } }"),
+        ("chain of 8 locals ending in a parameter", "party P; tx t(q: Int) { locals { a1: a2, a2: a3, a3: a4, a4: a5, a5: a6, a6: a7, a7: a8, a8: q, } output { to: P, amount: Ada(a1), } }"),
+        ("chain of 12 locals ending in a parameter", "party P; tx t(q: Int) { locals { a1: a2, a2: a3, a3: a4, a4: a5, a5: a6, a6: a7, a7: a8, a8: a9, a9: a10, a10: a11, a11: a12, a12: q, } output { to: P, amount: Ada(a1), } }"),
     ];
+    let mut alias_chain = String::from("party P; type R { a: Int, } ");
+    for i in 1..130 { alias_chain.push_str(&format!("type A{} = A{}; ", i, i + 1)); }
+    alias_chain.push_str("type A130 = R; tx t(q: A1) { output { to: P, amount: Ada(1), datum: q, } }");
+    let mut cases: Vec<(&str, String)> = cases.into_iter().map(|(a, b)| (a, b.to_string())).collect();
+    cases.push(("chain of 130 type aliases ending in a record", alias_chain));
     for (name, src) in cases {
         let r = std::panic::catch_unwind(|| {
             let mut ws = tx3_lang::Workspace::from_string(src.to_string());
